@@ -184,6 +184,12 @@ def download(
             continue
         destination: Path = output  # type: ignore
         if destination is None:
+            # The project may have the text already, under another extension
+            # or in a subdirectory of LICENSES/. A second one is an error.
+            if lic in obj.project.licenses:
+                _already_exists(obj.project.licenses[lic])
+                return_code = 1
+                continue
             destination = _path_to_license_file(lic, obj.project)
         try:
             put_license_in_file(lic, destination=destination, source=source)
